@@ -279,7 +279,7 @@ func main() {
 	}
 	rules := map[string]string{
 		"C01": "fixed corpus of minimal histories of the repaired defects first; then random CFL assets (3/4: 1-4 flows, 0-6 nodes, cycles, self/mutual/terminal enters, empty flows, waits with/without timeout; 1/4: enter_flow chains 3-6 levels deep whose deepest flow waits, fails, enters itself or closes the cycle) x trigger (manual/msg/flow_action) x 0-8 resumes (msg/timeout/expiration/dial); a history whose first sprint does not wait is redrawn once; non-trivial = the history has >=2 sprints and >=2 runs, or took a failure/expiry/terminal/limit branch; distinct = distinct canonical history JSON",
-		"C05": "as C01 with adversarial graphs (self-loops, default-to-self routers, A enters B enters A, terminal loops) and small option values; non-trivial = some sprint came within 2 of the step limit or hit it, or a text was cut at a length limit, or the resume limit was reached",
+		"C05": "(a) as C01 with adversarial graphs (self-loops, default-to-self routers, A enters B enters A, terminal loops) and small option values; non-trivial = some sprint came within 2 of the step limit or hit it, or a text was cut at a length limit, or the resume limit was reached; (b) payload stream, direct oracle only (outside the Coq model): fixed corpus + flows with send_msg (text, quick replies, attachments around 2048 bytes), set_contact_name, set_contact_field (text/number/datetime fields) and set_run_result whose values have limit+1, limit, limit-1 or many more characters, built from ASCII, multi-byte text, dates, numbers and URLs, under small random MaxFieldChars/MaxResultChars/MaxTemplateChars and the defaults; every event payload and the resulting contact and run results are checked; non-trivial = some value exceeds its limit or the message has quick replies/attachments",
 		"C10": "as C01 (first sprint redrawn up to 5 times until it waits; 15% dial, 15% wait_timeout, 5% run_expiration resumes) plus faults in the asset store between sprints (flow deleted, waiting node deleted / without router / without wait, timeout removed/added, resume limit lowered), resumes of every type against every wait, resumes of finished sessions, tampered sessions without a waiting run; non-trivial = at least one resume was rejected with an engine error or ended in a failed session",
 	}
 	res := hx.NewResult(o, rules[prop])
@@ -326,6 +326,10 @@ func main() {
 		}
 	}
 
+	if o.Replay != "" && prop == "C05" && replayPayload(o.Replay, res) {
+		res.Write(o)
+		return
+	}
 	if o.Replay != "" {
 		// re-run exactly the recorded history (a replay file without an input, e.g. for a broken proof,
 		// falls through to the normal run of the recorded seed)
@@ -385,6 +389,10 @@ func main() {
 		}
 	}
 	flush()
+	if prop == "C05" && !hung {
+		// the payload-length clause on action types outside the modelled fragment (direct oracle only)
+		payloadStream(rnd.Fork("payload"), o.Count(300, 6000), res)
+	}
 	res.Write(o)
 }
 
